@@ -67,3 +67,4 @@ claim("C13", "K01 K02 K04 K06 K07", "Unbounded proof of absence of undefined beh
 claim("C27", "K17", "Unbounded proof: whole-set postconditions of the enable-group operations, the value gate equals the property's gate and is monotone in the enabled sets, --enable=<name> adds exactly the named groups and removes none, applyEnabled is monotone when enabling.", _NOTE)
 claim("C18", "K19", "Bounded check (token spelling <= 3 bytes; complete in line and column) that the bytes hashed per token determine spelling, line and column and are prefix-free; labelled bounded, nothing counted as proof.", _NOTE, category="model_checking")
 claim("C19", "K20 K19", "Bounded check (family under test: strings <= 2 bytes, lists <= 2 items, integers complete; context fixed to two concrete valuations) that every option family the property lists reaches the bytes hashed for the build-dir cache: two settings that differ in one family give different keys. Labelled bounded; nothing counted as proof.", _NOTE, category="model_checking")
+claim("C26", "K11", "Unbounded proof (loop contracts, any input length) that every output byte of toxml is XML-safe and every output byte of fixInvalidChars is printable, plus loop-free proofs that the unit appended per input byte is exactly the XML entity / octal escape the rules require.", _NOTE)
